@@ -175,6 +175,9 @@ def spec_bads(case, d, res, count_res=None, label=""):
             valid = member
         elif func == "sum" and not sum_nan_aware:
             valid = member
+        elif case.get("int_sentinel"):
+            # the null-skipping reducers treat the integer sentinel in plain int64 data as null
+            valid = [b_and(mb, b_not(num(v) == MIN_INT)) for mb, (c, v, s) in zip(member, rows)]
         else:
             valid = [b_and(mb, b_not(is_null_val(v, dt))) for mb, (c, v, s) in zip(member, rows)]
         r = res[g]
